@@ -13,26 +13,66 @@ thread_local! {
 
 pub struct Counting;
 
+/// Requests at or above this size are served by reserving address space without committing
+/// memory (mmap MAP_NORESERVE), so that an absurd allocation provoked by a hostile count field
+/// becomes a measured number (and a reported violation) instead of an allocation failure, which
+/// aborts the process in Rust and would take the whole batch down with it.
+const HUGE: usize = 1 << 30;
+
+unsafe fn huge_alloc(size: usize, align: usize) -> *mut u8 {
+    if align > 4096 {
+        return std::ptr::null_mut();
+    }
+    let p = libc::mmap(
+        std::ptr::null_mut(),
+        size,
+        libc::PROT_READ | libc::PROT_WRITE,
+        libc::MAP_PRIVATE | libc::MAP_ANONYMOUS | libc::MAP_NORESERVE,
+        -1,
+        0,
+    );
+    if p == libc::MAP_FAILED {
+        std::ptr::null_mut()
+    } else {
+        p as *mut u8
+    }
+}
+
 unsafe impl GlobalAlloc for Counting {
     unsafe fn alloc(&self, l: Layout) -> *mut u8 {
-        let p = System.alloc(l);
+        let p = if l.size() >= HUGE { huge_alloc(l.size(), l.align()) } else { System.alloc(l) };
         if !p.is_null() {
             add(l.size());
         }
         p
     }
     unsafe fn dealloc(&self, p: *mut u8, l: Layout) {
-        System.dealloc(p, l);
+        if l.size() >= HUGE {
+            let _ = libc::munmap(p as *mut libc::c_void, l.size());
+        } else {
+            System.dealloc(p, l);
+        }
         sub(l.size());
     }
     unsafe fn alloc_zeroed(&self, l: Layout) -> *mut u8 {
-        let p = System.alloc_zeroed(l);
+        // anonymous mappings are zero-filled
+        let p = if l.size() >= HUGE { huge_alloc(l.size(), l.align()) } else { System.alloc_zeroed(l) };
         if !p.is_null() {
             add(l.size());
         }
         p
     }
     unsafe fn realloc(&self, p: *mut u8, l: Layout, new: usize) -> *mut u8 {
+        if l.size() >= HUGE || new >= HUGE {
+            // move between the two worlds by hand
+            let nl = Layout::from_size_align_unchecked(new, l.align());
+            let q = self.alloc(nl);
+            if !q.is_null() {
+                std::ptr::copy_nonoverlapping(p, q, l.size().min(new));
+                self.dealloc(p, l);
+            }
+            return q;
+        }
         let q = System.realloc(p, l, new);
         if !q.is_null() {
             if new >= l.size() {
